@@ -1,4 +1,5 @@
 import Wpull.Robots
+import Wpull.RobotsParse
 import Wpull.Proto
 /-!
 Driver of the robots model.
@@ -6,6 +7,7 @@ Driver of the robots model.
   robots match <ua> <target> <rulesets>            -> T | F
   robots gate  <ua> <items> <events>               -> ok <log> | reject <k> <reason>
   robots nofollow <T|F robots option> <elements>   -> link contexts kept, in document order (`~` none)
+  robots parse <text>                              -> rulesets as stored after parsing (paths as written)
 
 rulesets: `~` or `|`-separated `<names>:<rules>`; names `,`-separated hex lists;
 rules `,`-separated `A=<hex list>` / `D=<hex list>` (`_` when a rule set has no rules).
@@ -116,6 +118,15 @@ def handle : List String → String
       let out := scrapeLinks r es
       if out.isEmpty then "~" else "|".intercalate (out.map encCtx)
     | _, _ => "bad-arg"
+  | ["parse", text] =>
+    match decList? text with
+    | some t =>
+      let rs := parseRobots t
+      if rs.isEmpty then "~"
+      else "|".intercalate (rs.map fun r =>
+        ",".intercalate (r.names.map encList) ++ ":" ++
+          (if r.rules.isEmpty then "_" else ",".intercalate (r.rules.map fun ap => (if ap.1 then "A=" else "D=") ++ encList ap.2)))
+    | none => "bad-arg"
   | ["match", ua, target, rsets] =>
     match decList? ua, decList? target, decRuleSets? rsets with
     | some ua, some t, some rs => encBool (isAllowed rs ua t)
